@@ -64,7 +64,7 @@ func (b *Bundle) NameFeature(class, role string) {
 	}
 }
 
-var CollisionKinds = []string{"exact", "case", "several", "generatedName", "oaigenTaken", "oaigen1Taken", "paramsBodyTaken", "twoImportsSameName", "caseTwinsInline", "prefixNames", "anonPointerNameTaken", "anonPointerSymbolsKey", "opKeyTwins", "opKeyTwinsWithID", "dupOperationIds", "prefixNamesRemoteRecursive", "mangleTwinsInline", "manyMembers", "generatedNamesPresent", "pathWithoutOperations", "anonPointerPrefixSibling", "deepOnlyReferrer", "twoSpellingsTwoFiles", "mergedBackNameTaken", "oaigenNamesTaken", "oaigenCaseTaken", "caseTwinDocuments"}
+var CollisionKinds = []string{"exact", "case", "several", "generatedName", "oaigenTaken", "oaigen1Taken", "paramsBodyTaken", "twoImportsSameName", "caseTwinsInline", "prefixNames", "anonPointerNameTaken", "anonPointerSymbolsKey", "opKeyTwins", "opKeyTwinsWithID", "dupOperationIds", "prefixNamesRemoteRecursive", "mangleTwinsInline", "manyMembers", "generatedNamesPresent", "pathWithoutOperations", "anonPointerPrefixSibling", "deepOnlyReferrer", "twoSpellingsTwoFiles", "mergedBackNameTaken", "oaigenNamesTaken", "oaigenCaseTaken", "caseTwinDocuments", "unicodeCaseTwin", "numericNamesWithRefs"}
 
 // KeywordNames: definition and property names that are also keywords of the schema model or words the namer treats specially.
 var KeywordNames = []string{"schema", "not", "anyOf", "oneOf", "allOf", "properties", "items", "additionalProperties", "definitions", "parameters", "responses", "paths", "body", "default", "0"}
@@ -114,6 +114,22 @@ func (b *Bundle) Collision(kind string) {
 		use(b.Def("ctHolder"+k, jx.Obj{"type": "object", "description": b.lbl("ct"), "properties": jx.Obj{
 			"first":  jx.Obj{"$ref": "sub/Models" + k + ".json#/definitions/" + n},
 			"second": jx.Obj{"$ref": "sub/models" + k + ".json#/definitions/" + n}}}))
+		b.Tag("multi-doc")
+	case "unicodeCaseTwin":
+		// an existing definition equal to a generated name up to a case variant of another byte length
+		// (U+212A KELVIN SIGN folds to 'k', U+017F LONG S to 's')
+		use(b.Def("bank"+k, jx.Obj{"type": "object", "description": b.lbl("uc"), "properties": jx.Obj{"info": b.Obj(), "\u017ftate": b.Obj()}}))
+		use(b.Def("ban\u212a"+k+"Info", b.refFreeSchema("object")))
+		use(b.Def("bank"+k+"State", b.refFreeSchema("object")))
+	case "numericNamesWithRefs":
+		// numeric property and definition names whose value is a $ref that Flatten has to rewrite
+		b.Def("numTarget"+k, jx.Obj{"type": "object", "description": b.lbl("nt"), "properties": jx.Obj{"x": b.Obj()}})
+		use(b.Def("numHost"+k, jx.Obj{"type": "object", "description": b.lbl("nh"), "properties": jx.Obj{
+			"10": jx.Obj{"$ref": b.Target("remoteDef", "")},
+			"0":  jx.Obj{"$ref": "#/definitions/numTarget" + k + "/properties/x"},
+			"-1": jx.Obj{"$ref": b.Target("localDef", "")}}}))
+		use(b.Def("1"+k, jx.Obj{"$ref": b.Target("remoteDef", "")}))
+		b.AnonPtr = true
 		b.Tag("multi-doc")
 	case "oaigenCaseTaken":
 		// the suffixed candidates are taken too, up to letter case
